@@ -31,7 +31,7 @@ NOT_ASSERTED = []
 
 ROUTES = ['builder', 'ctor_tvm', 'ctor_plain', 'ctor_plain_le', 'ctor_tvm_le', 'boc_bytes', 'boc_hex', 'boc_b64', 'copy', 'parse_to_cell', 'slice_from_cell',
           'to_builder', 'builder_to_slice', 'builder_from_boc', 'slice_from_boc', 'boc_options', 'builder_reused', 'slice_reused', 'derived_mutated',
-          'subclass_boc', 'subclass_ctor', 'subclass_copy', 'slice_consumed', 'rehashed']
+          'subclass_boc', 'subclass_ctor', 'subclass_copy', 'slice_consumed', 'rehashed', 'builder_slice_reused']
 
 
 def BOUNDS(tier):
@@ -153,6 +153,24 @@ def _routes(rc, refs_lib):
         b.end_cell()
         return c
 
+    def builder_slice_reused():
+        # the cell is taken THROUGH A SLICE of the builder (to_slice().to_cell(), nothing loaded from the slice), then the builder and the
+        # slice go on being used: the cell must not notice (wave 10)
+        b = base()
+        s = b.to_slice()
+        c = s.to_cell()
+        extra = Builder().store_uint(0x5a, 8).end_cell()
+        if len(rc.bits) < 1023:
+            b.store_bit(1)
+        if len(refs_lib) < 4:
+            b.store_ref(extra)
+        if len(rc.bits):
+            s.load_bit()
+        if len(refs_lib):
+            s.load_ref()
+        b.end_cell()
+        return c
+
     def slice_reused():
         # the cell is taken from a slice, then the slice is consumed to the end
         s = base().end_cell().begin_parse()
@@ -212,6 +230,7 @@ def _routes(rc, refs_lib):
     yield 'slice_consumed', slice_consumed
     yield 'derived_mutated', derived_mutated
     yield 'builder_reused', builder_reused
+    yield 'builder_slice_reused', builder_slice_reused
     yield 'slice_reused', slice_reused
     yield 'boc_options', lambda: Cell.one_from_boc(base().end_cell().to_boc(has_idx=True, hash_crc32=True, has_cache_bits=True))
 
